@@ -34,10 +34,14 @@ type Violation struct {
 
 // Result is what one case reports.
 type Result struct {
-	Evals     int            `json:"evals"`
-	Keys      []uint64       `json:"keys,omitempty"`     // coverage keys of distinct non-trivial sub-cases
-	Counters  map[string]int `json:"counters,omitempty"` // fault kinds fired, probes hit, ...
-	Known     map[string]int `json:"known,omitempty"`    // known-finding id -> failing sub-cases attributed to it
+	Evals    int            `json:"evals"`
+	Keys     []uint64       `json:"keys,omitempty"`     // coverage keys of distinct non-trivial sub-cases
+	Counters map[string]int `json:"counters,omitempty"` // fault kinds fired, probes hit, ...
+	Known    map[string]int `json:"known,omitempty"`    // known-finding id -> failing sub-cases attributed to it
+	// Volatile holds observations that legitimately differ between two runs of the same seed
+	// (fresh-process tiers, race reports de-duplicated per process): they are reported in the
+	// evidence but excluded from the determinism digest. Keys prefixed "known:" are merged into Known.
+	Volatile  map[string]int `json:"volatile,omitempty"`
 	Violation *Violation     `json:"violation,omitempty"`
 	Sample    any            `json:"sample,omitempty"`
 	SimNs     int64          `json:"sim_ns,omitempty"` // simulated time covered
@@ -45,7 +49,7 @@ type Result struct {
 }
 
 func NewResult() *Result {
-	return &Result{Counters: map[string]int{}, Known: map[string]int{}}
+	return &Result{Counters: map[string]int{}, Known: map[string]int{}, Volatile: map[string]int{}}
 }
 
 func (r *Result) Count(name string, n int) { r.Counters[name] += n }
@@ -499,6 +503,13 @@ func coordinate(e Engine, x *Ctx, o coordOpts) int {
 		for k, v := range r.Known {
 			total.Known[k] += v
 		}
+		for k, v := range r.Volatile {
+			if strings.HasPrefix(k, "known:") {
+				total.Known[strings.TrimPrefix(k, "known:")] += v
+			} else {
+				total.Counters[k] += v
+			}
+		}
 		if r.Sample != nil && len(samples) < 4 {
 			samples = append(samples, r.Sample)
 		}
@@ -506,7 +517,12 @@ func coordinate(e Engine, x *Ctx, o coordOpts) int {
 			violations = append(violations, l)
 		}
 		if o.digest {
-			b, _ := json.Marshal(r)
+			rc := *r
+			rc.Volatile = nil
+			if rc.Violation != nil {
+				rc.Violation = &Violation{Class: rc.Violation.Class}
+			}
+			b, _ := json.Marshal(&rc)
 			fmt.Printf("DIGEST %d %016x\n", i, HashString(string(b)))
 		}
 	}
